@@ -26,6 +26,12 @@ pub enum CmdCase {
     Tearing(u8),
     Invert(bool),
     Raw { instr: u8, params: Vec<u8> },
+    /// write_raw / write_command through the real transports at pin level
+    /// (transport: 0 = SPI with a staging buffer of `buf` bytes, 1 = 8-bit parallel, 2 = 16-bit parallel)
+    RawOnTransport { transport: u8, buf: u8, instr: u8, params: Vec<u8> },
+    ScrollAreaOnTransport { transport: u8, buf: u8, tfa: u16, vsa: u16, bfa: u16 },
+    /// SetAddressMode built by new() and then modified by setters (serialisation of the result)
+    AddressModeWord(super::c14::ModeCase),
 }
 
 const BPP: [(BitsPerPixel, u8); 6] = [
@@ -84,6 +90,50 @@ fn on_bus(f: impl FnOnce(&mut RecIface<u8, KP8>) -> Result<(), Fault>) -> Result
         }
     }
     Ok(out)
+}
+
+/// object-safe view of the three real transports
+trait Tx {
+    fn raw(&mut self, instr: u8, params: &[u8]) -> Result<(), String>;
+    fn scroll(&mut self, tfa: u16, vsa: u16, bfa: u16) -> Result<(), String>;
+}
+impl<T: mipidsi::interface::Interface> Tx for T
+where
+    T::Error: core::fmt::Debug,
+{
+    fn raw(&mut self, instr: u8, params: &[u8]) -> Result<(), String> {
+        self.write_raw(instr, params).map_err(|e| format!("{:?}", e))
+    }
+    fn scroll(&mut self, tfa: u16, vsa: u16, bfa: u16) -> Result<(), String> {
+        self.write_command(SetScrollArea::new(tfa, vsa, bfa)).map_err(|e| format!("{:?}", e))
+    }
+}
+
+/// run `f` against a real transport over pin-level doubles; returns the (D/C high, word) stream the controller latched
+fn on_transport(transport: u8, buf: u8, f: impl FnOnce(&mut dyn Tx) -> Result<(), String>) -> Result<Vec<(bool, u16)>, String> {
+    use mipidsi::interface::{Generic16BitBus, Generic8BitBus, ParallelInterface, SpiInterface};
+    let w = World::new(8, 8, if transport == 2 { 16 } else { 8 });
+    w.borrow_mut().latch_on = true;
+    match transport {
+        0 => {
+            let mut buffer = vec![0xA5u8; (buf as usize).max(1)];
+            let mut di = SpiInterface::new(SpiDev { w: w.clone() }, pin(&w, Src::Dc), &mut buffer[..]);
+            f(&mut di)?;
+        }
+        1 => {
+            let mut di = ParallelInterface::new(Generic8BitBus::new(pins8(&w)), pin(&w, Src::Dc), pin(&w, Src::Wr));
+            f(&mut di)?;
+        }
+        _ => {
+            let mut di = ParallelInterface::new(Generic16BitBus::new(pins16(&w)), pin(&w, Src::Dc), pin(&w, Src::Wr));
+            f(&mut di)?;
+        }
+    }
+    let wb = w.borrow();
+    if let Some(e) = wb.decode_errors.iter().find(|e| e.contains("undefined") || e.contains("unexpected")) {
+        return Err(format!("bus decode error: {}", e));
+    }
+    Ok(wb.latch_log.clone())
 }
 
 thread_local! { static TABLE: [u8; 8] = derive_orientation_bits(); }
@@ -195,6 +245,33 @@ pub fn check(c: &CmdCase, info: &mut CaseInfo) -> Result<(), String> {
             info.nontrivial = !params.is_empty();
             bus("write_raw", on_bus(|di| di.write_raw(*instr, params))?, *instr, params)
         }
+        CmdCase::RawOnTransport { transport, buf, instr, params } => {
+            info.nontrivial = params.len() > *buf as usize;
+            let got = on_transport(*transport, *buf, |t| t.raw(*instr, params))?;
+            let mut want = vec![(false, *instr as u16)];
+            want.extend(params.iter().map(|b| (true, *b as u16)));
+            if got != want {
+                return Err(format!(
+                    "write_raw({:#04x}, {} bytes) through transport {} (buffer {}): controller latched {:02x?}, expected {:02x?}",
+                    instr, params.len(), transport, buf, got, want
+                ));
+            }
+            Ok(())
+        }
+        CmdCase::ScrollAreaOnTransport { transport, buf, tfa, vsa, bfa } => {
+            let got = on_transport(*transport, *buf, |t| t.scroll(*tfa, *vsa, *bfa))?;
+            let p = [tfa.to_be_bytes(), vsa.to_be_bytes(), bfa.to_be_bytes()].concat();
+            let mut want = vec![(false, 0x33u16)];
+            want.extend(p.iter().map(|b| (true, *b as u16)));
+            if got != want {
+                return Err(format!(
+                    "write_command(SetScrollArea) through transport {} (buffer {}): controller latched {:02x?}, expected {:02x?}",
+                    transport, buf, got, want
+                ));
+            }
+            Ok(())
+        }
+        CmdCase::AddressModeWord(m) => super::c14::check(m, info),
     }
 }
 
@@ -225,6 +302,12 @@ fn strategy() -> BoxedStrategy<CmdCase> {
         1 => (0u8..3).prop_map(CmdCase::Tearing),
         1 => any::<bool>().prop_map(CmdCase::Invert),
         3 => (any::<u8>(), proptest::collection::vec(any::<u8>(), 0..=40)).prop_map(|(instr, params)| CmdCase::Raw { instr, params }),
+        4 => (0u8..3, 1u8..=20, any::<u8>(), proptest::collection::vec(any::<u8>(), 0..=40))
+            .prop_map(|(transport, buf, instr, params)| CmdCase::RawOnTransport { transport, buf, instr, params }),
+        2 => (0u8..3, 1u8..=12, asym_u16(), asym_u16(), asym_u16())
+            .prop_map(|(transport, buf, tfa, vsa, bfa)| CmdCase::ScrollAreaOnTransport { transport, buf, tfa, vsa, bfa }),
+        2 => (any::<[bool; 3]>(), crate::gen::orient(), proptest::collection::vec(proptest::sample::select(super::c14::all_setters()), 1..=6))
+            .prop_map(|(b, orient, word)| CmdCase::AddressModeWord(super::c14::ModeCase { bgr: b[0], orient, refresh_v: b[1], refresh_h: b[2], via_options: false, word })),
     ]
     .boxed()
 }
@@ -261,6 +344,21 @@ fn enumerated() -> Vec<CmdCase> {
     for v in 0..=65535u16 {
         out.push(CmdCase::Column { s: v, e: v.rotate_left(5) ^ 0x5a5a });
         out.push(CmdCase::Page { s: v.rotate_left(3) ^ 0xa5a5, e: v });
+    }
+    for transport in 0..3u8 {
+        for buf in 1..=9u8 {
+            for len in 0..=18usize {
+                out.push(CmdCase::RawOnTransport { transport, buf, instr: 0xB0 ^ buf, params: (0..len).map(|i| (i as u8).wrapping_mul(29) ^ 0x5c).collect() });
+            }
+            out.push(CmdCase::ScrollAreaOnTransport { transport, buf, tfa: 0x0102, vsa: 0x0304, bfa: 0x0506 });
+        }
+    }
+    for a in super::c14::all_setters() {
+        for b in super::c14::all_setters() {
+            for orient in [Orient { rot: 3, mirrored: false }, Orient { rot: 1, mirrored: true }] {
+                out.push(CmdCase::AddressModeWord(super::c14::ModeCase { bgr: false, orient, refresh_v: true, refresh_h: true, via_options: false, word: vec![a, b] }));
+            }
+        }
     }
     for instr in 0..=255u8 {
         out.push(CmdCase::Raw { instr, params: vec![] });
@@ -313,7 +411,7 @@ pub fn run(ctx: &Ctx) -> Report {
     rep.assumptions = vec!["opcode table and parameter layouts written from the MIPI DCS specification (v1.x user command set)".into()];
     let mut sec = Section::new(
         &format!("enumerated[{}]", ctx.variant),
-        "every public command type: all parameterless commands, all 64 address modes, all BitsPerPixel pairs, all 65536 scroll starts, all tearing/invert variants, every u16 as column start and page end, every raw instruction byte; oracle: MIPI opcode table, big-endian parameters into a poisoned 16-byte buffer (nothing beyond n touched, all n bytes written), and exactly one send_command(opcode, bytes) on the bus",
+        "every public command type: all parameterless commands, all 64 address modes, all BitsPerPixel pairs, all 65536 scroll starts, all tearing/invert variants, every u16 as column start and page end, every raw instruction byte; oracle: MIPI opcode table, big-endian parameters into a poisoned 16-byte buffer (nothing beyond n touched, all n bytes written), and exactly one send_command(opcode, bytes) on the bus; write_raw / write_command also through the real SPI (staging buffers of 1..9 bytes, parameters longer than the buffer) and 8/16-bit parallel transports at pin level; SetAddressMode also after setter words",
     );
     sec.exhaustive = true;
     run_enumerated(&mut sec, enumerated(), ctx.workers, check, |_, _| "c18:serialisation".into());
